@@ -186,6 +186,19 @@ def wide_case(v, shape, N, opts):
     elif shape == "element_wise":
         schema = pa.DataFrameSchema({"a": pa.Column(float, Check(lambda x: x > c, element_wise=True)), "b": pa.Column(int)})
         spec = zand(xa[i] > R(v.z(c)) for i in range(N))
+    elif shape == "groupby":
+        # a column check that receives the groups of another column (concrete keys), restricted by `groups`
+        keys = (["x", "y", "x", "y"])[:N]
+        df = v.frame([("a", "float", False), ("b", "int"), ("k", "str", False, keys)], N, labels="l")
+
+        def gfn(groups):
+            out = True
+            for g in sorted(groups):
+                out = out & (groups[g] > c).all()
+            return out
+
+        schema = pa.DataFrameSchema({"a": pa.Column(float, Check(gfn, groupby="k", groups=["x"])), "b": pa.Column(int), "k": pa.Column(str)})
+        spec = zand(xa[i] > R(v.z(c)) for i in range(N) if keys[i] == "x")
     elif shape == "two_checks":
         schema = pa.DataFrameSchema({"a": pa.Column(float, [Check.ge(c), Check.le(c + 5)]), "b": pa.Column(int, Check.ne(c))})
         spec = zand(z3.And(xa[i] >= R(v.z(c)), xa[i] <= R(v.z(c)) + 5, xb[i] != v.z(c)) for i in range(N))
@@ -412,9 +425,22 @@ def standard_cases(tier):
     for shape in ("frame_index", "series_index", "frame_multiindex"):
         for lazy in (False, True):
             ts.append((f"I/{shape}/lazy={int(lazy)}/N={N}", index_case, (shape, N, dict(lazy=lazy))))
-    for shape in ("rowwise", "scalar", "element_wise", "two_checks"):
+    for shape in ("rowwise", "scalar", "element_wise", "two_checks", "groupby"):
         for lazy in (False, True):
             ts.append((f"W/{shape}/lazy={int(lazy)}/N={N}", wide_case, (shape, N, dict(lazy=lazy))))
+    # empty and one-row objects of representative shapes (reductions over nothing, no duplicates possible, head/tail of nothing)
+    for n in (0, 1):
+        for lazy in (False, True):
+            ts.append((f"S/float/in_range/lazy={int(lazy)}/N={n}", series_case, ("float", "in_range", n, True, None, lazy)))
+            ts.append((f"S/str/str_matches/lazy={int(lazy)}/N={n}", series_case, ("str", "str_matches", n, True, None, lazy)))
+            ts.append((f"F/ab/strict=filter/lazy={int(lazy)}/N={n}", frame_case, (["a", "b"], "filter", False, n, {"lazy": lazy})))
+            ts.append((f"I/frame_index/lazy={int(lazy)}/N={n}", index_case, ("frame_index", n, dict(lazy=lazy))))
+            ts.append((f"W/rowwise/lazy={int(lazy)}/N={n}", wide_case, ("rowwise", n, dict(lazy=lazy))))
+            ts.append((f"K/column_coerce/lazy={int(lazy)}/N={n}", component_case, ("column_coerce", n, lazy)))
+        for c in (dict(coerce="col", a_kind="int"), dict(default=True), dict(drop=True), dict(add_missing=True, default=True)):
+            arr = ["b"] if c.get("add_missing") else ["a", "b"]
+            cc = dict(c, lazy=bool(c.get("drop")), distinct_labels=bool(c.get("drop")))
+            ts.append((f"P/{''.join(arr)}/" + "/".join(f"{k}={x}" for k, x in cc.items() if k != "distinct_labels") + f"/N={n}", parse_case, (arr, n, cc)))
     # the parsing options under a restricted validation depth (checks are removed, parsers still run)
     for depth in ("SO", "DO"):
         for arr, c in ((["a", "b"], dict(coerce="col", a_kind="int")), (["a", "b"], dict(default=True)), (["a", "b", "x"], dict(strict="filter")),
@@ -1688,6 +1714,25 @@ def model_case(v, shape, N):
                                            "b": pa.Column(int, Check.isin([1, 2, 3], raise_warning=rw))})
         arr = [("a", "float"), ("b", "int")]
         models = [M]
+    elif shape == "parser_methods":
+        # @parser methods (field level, inherited) are applied like the Parser objects of the object API, before the checks
+        from pandera import Parser
+
+        class Base(pa.DataFrameModel):
+            a: float = pa.Field(ge=lo, nullable=nullable)
+            b: int
+
+            @pa.parser("a")
+            def fill(cls, s):  # noqa: N805
+                return s.fillna(0.5)
+
+        class M(Base):
+            b: int = pa.Field(isin=[1, 2, 3])
+
+        spec = lambda: pa.DataFrameSchema({"a": pa.Column(float, Check.ge(lo), nullable=nullable, parsers=Parser(lambda s: s.fillna(0.5))),  # noqa: E731
+                                           "b": pa.Column(int, Check.isin([1, 2, 3]))})
+        arr = [("a", "float"), ("b", "int")]
+        models = [M]
     elif shape == "falsy_alias":
         # aliases that are falsy but not None: the integer label 0 and the empty string
         class M(pa.DataFrameModel):
@@ -1719,12 +1764,15 @@ def model_case(v, shape, N):
     s1b = M.to_schema()
     asserts.append(("model/to_schema_stable", v.holds(fingerprint(s1) == fingerprint(s1b) and bool(s1 == s1b))))
     S = spec()
-    if shape not in ("check_methods", "inherited_cls_check"):
+    if shape not in ("check_methods", "inherited_cls_check", "parser_methods"):
         asserts.append(("model/schema_equals_spec", v.holds(_fp_cols(s1) == _fp_cols(S))))
         facts["fp_model"], facts["fp_spec"] = None, None
     om = H.outcome(lambda: M.validate(df))
     os_ = H.outcome(lambda: S.validate(df))
     asserts.append(("model/verdict_equals_schema", v.holds(om["kind"] == os_["kind"] and om.get("reason") == os_.get("reason"))))
+    if om["kind"] == "accept" and os_["kind"] == "accept" and is_frame(om["out"]) and is_frame(os_["out"]):
+        # ... and returns the same (parsed) object
+        asserts.append(("model/output_equals_schema_output", H.equal_to_snapshot(v, om["out"], H.snapshot(os_["out"]))))
     for P, pspec in extra_checks:
         op, osx = H.outcome(lambda: P.validate(df)), H.outcome(lambda: pspec.validate(df))
         asserts.append(("model/parent_verdict", v.holds(op["kind"] == osx["kind"])))
@@ -1821,16 +1869,21 @@ def decorator_case(v, shape, N):
     def body_kwonly(p, x, *, flag=False):
         ran.append(1)
         got.append(x)
+        others["p"], others["flag"] = p, flag
         return x
 
     def body_catchall(p, x, **extra):
         ran.append(1)
         got.append(x)
+        others["p"], others["extra"] = p, extra
         return x
+
+    others = {}
 
     def body_varargs(x, *more):
         ran.append(1)
         got.append(x)
+        others["more"] = more
         return x
 
     out_kind = "frame"
@@ -1969,6 +2022,12 @@ def decorator_case(v, shape, N):
             asserts.append(("decorator/result_is_validated_object", H.equal_to_snapshot(v, val, dsnap)))
         if got and not is_output:
             asserts.append(("decorator/body_receives_validated", H.equal_to_snapshot(v, got[0], H.snapshot(direct["out"]))))
+    if ran and others:
+        # the arguments that are not designated reach the body exactly as the caller passed them
+        want = {"name-pos-varargs": {"more": (1, 2)}, "name-pos2-kwonly": {"p": 0, "flag": True}, "int-pos2-kwonly": {"p": 0, "flag": True},
+                "name-pos2-catchall": {"p": 0, "extra": {"k": 1}}}.get(shape)
+        if want is not None:
+            asserts.append(("decorator/other_arguments_unchanged", v.holds(others == want)))
     facts = dict(shape=shape, direct=direct["kind"], got=o["kind"], body_ran=bool(ran), lazy=lazy, head=head, msg=o.get("msg"))
     o2 = dict(o)
     if o2["kind"] == "accept" and not isinstance(o2.get("out"), (symframe.DataFrame, real_pd.DataFrame)):
